@@ -540,6 +540,18 @@ class Evaluator(object):
                 return Bool({'lt': f < 0, 'le': f <= 0, 'gt': f > 0, 'ge': f >= 0, 'eq': f == 0, 'ne': f != 0}[name])
             if d.is_zero():
                 return Bool(name in ('le', 'ge', 'eq'))
+            # a single-term difference c * m (c a real constant, possibly with powers of pi) has the sign of sgn(c) * m: `degrees(t) < 0` is
+            # `t < 0`.  The comparison is brought to that form so that equal tests are equal atoms.
+            if d.den.is_const() and len(d.num.t) == 1:
+                (mono_, c_), = d.num.t.items()
+                dc_ = d.den.const_value()
+                if not mono_[1] and not c_.im and not dc_.im and dc_.re != 0 and mono_[0]:
+                    pi_ = alg.TABLE.syms.get('pi')
+                    rest_ = tuple((k_, e_) for k_, e_ in mono_[0] if pi_ is None or k_ != pi_.id)
+                    if rest_ and (len(rest_) != len(mono_[0]) or c_.re / dc_.re not in (1, -1)):
+                        sg_ = 1 if (c_.re / dc_.re) > 0 else -1
+                        m_ = Rat(alg.Poly({(rest_, alg.NOEXP): alg.ONE}))
+                        a, b = (m_ if sg_ > 0 else -m_), C(0)
             # canonical orientation: a < b  ==  lt(a, b); gt/ge are rewritten as lt/le with swapped sides
             if name == 'gt':
                 return alg.opaque('lt', (b, a))
@@ -1713,6 +1725,13 @@ class Evaluator(object):
                         and getattr(self, 'dates_are_typed', False) and _const_int(a[0]) is not None and _const_int(a[0]) in self.dates:
                     return Bool(a[1].target.name == 'datetime.date')
                 return alg.opaque('isinstance', (argkey(a[0]), argkey(a[1])))
+            if short == 'bool' and len(args) == 1 and not kwargs:
+                # bool(<comparison>) is the comparison (a condition value); bool(True) is True
+                if isinstance(args[0], Bool):
+                    return args[0]
+                t_ = self.truth(args[0], node)
+                if isinstance(t_, (Bool, Rat)):
+                    return t_
             if short in ('min', 'max', 'sum', 'sorted', 'divmod', 'all', 'any', 'bool', 'zip', 'enumerate', 'print', 'repr', 'format'):
                 if short == 'print':
                     return NONE
